@@ -158,12 +158,24 @@ package scanner
 //@   invariant inv(s) && s.offset >= old(s.offset) && offs == old(s.offset) - 1
 //@   decreases len(s.src) - s.offset
 //@
+//@ # scratchFleCh: the character at which findLineEnd's look-ahead stopped after the last closed /*-comment and the
+//@ # white space behind it (-2: no such comment yet). "No semicolon before the comment" (result false) is only right
+//@ # when a token follows on the same line; at the end of the source or of the line the answer is true (C32: the
+//@ # same inserted semicolons as the XGo scanner, whose findLineEnd carries the same clauses).
+//@ ghost scratchFleCh int
 //@ func (*Scanner).findLineEnd
 //@   requires inv(s) && s.offset >= 1 && (s.ch == '/' || s.ch == '*')
-//@   assigns s.ch, s.offset, s.rdOffset, s.lineOffset, s.ErrorCount
+//@   assigns s.ch, s.offset, s.rdOffset, s.lineOffset, s.ErrorCount, scratchFleCh
+//@   at entry set scratchFleCh = -2
+//@   at call skipWhitespace#1 set scratchFleCh = s.ch
 //@   ensures inv(s) && s.offset == old(s.offset) && s.ch == old(s.ch)
+//@   ensures [false-only-before-a-token-on-the-line] !result ==> scratchFleCh >= 0 && scratchFleCh != '\n'
+//@   ensures [end-of-source-or-line-is-a-line-end] scratchFleCh == -1 || scratchFleCh == '\n' ==> result
+//@   ensures [line-comment-is-a-line-end] old(s.ch) == '/' ==> result
 //@ loop (*Scanner).findLineEnd#1
 //@   invariant inv(s) && s.offset >= old(s.offset)
+//@   invariant scratchFleCh == -2 ==> s.offset == old(s.offset) && s.ch == old(s.ch)
+//@   invariant scratchFleCh != -2 ==> scratchFleCh == '/' && old(s.ch) != '/'
 //@   decreases len(s.src) - s.offset
 //@ loop (*Scanner).findLineEnd#2
 //@   invariant inv(s) && s.offset > old(s.offset) && s.offset > athead(1, s.offset)
